@@ -384,6 +384,56 @@ fn def_extent(r: &Rendered, di: usize) -> Option<(Loc, Loc)> {
     Some((r.tok_pos[first].0, r.tok_pos[last].1))
 }
 
+
+/// Codes whose message quotes the identifier of the element the diagnostic is about (established on the catalogue:
+/// for every other code the quoted name is, or may be, another element - a deprecated type, the first definition).
+const NAMES_ITS_PLACE: [&str; 13] = ["E007", "E008", "E009", "E011", "E012", "E013", "E016", "E019", "E020", "E035", "E036", "E037", "IncorrectDocComment"];
+
+/// If the first line of `message` quotes identifiers and exactly one named element of the file carries one of them:
+/// the extent (first token .. last token) of that element.
+fn named_element_extent(r: &Rendered, message: &str) -> Option<(Loc, Loc)> {
+    let first_line = message.lines().next().unwrap_or("");
+    let mut names: Vec<&str> = vec![];
+    let mut rest = first_line;
+    while let Some(a) = rest.find('\'') {
+        let after = &rest[a + 1..];
+        let Some(b) = after.find('\'') else { break };
+        let q = &after[..b];
+        if !q.is_empty() && q.chars().all(|c| c.is_alphanumeric() || c == '_' || c == ':') {
+            names.push(q.rsplit("::").next().unwrap_or(q));
+        }
+        rest = &after[b + 1..];
+    }
+    if names.is_empty() {
+        return None;
+    }
+    fn collect<'a>(n: &'a Node, names: &[&str], out: &mut Vec<&'a Node>) {
+        if matches!(n.kind, "field" | "param" | "ret" | "operation" | "enumerator" | "struct" | "interface" | "enum" | "custom" | "alias") && n.get("id").map_or(false, |id| names.contains(&id)) {
+            out.push(n);
+        }
+        for c in &n.children {
+            collect(c, names, out);
+        }
+    }
+    let mut hits = vec![];
+    collect(&r.tree, &names, &mut hits);
+    if hits.len() != 1 {
+        return None;
+    }
+    fn min_first(n: &Node, m: &mut usize) {
+        if let Some(p) = &n.pos {
+            *m = (*m).min(p.first);
+        }
+        for c in &n.children {
+            min_first(c, m);
+        }
+    }
+    let mut first = usize::MAX;
+    min_first(hits[0], &mut first);
+    let last = hits[0].pos.as_ref()?.last;
+    Some((r.tok_pos[first].0, r.tok_pos[last].1))
+}
+
 impl Family for DiagnosticSpans {
     fn name(&self) -> String {
         if self.arity == 0 {
@@ -441,6 +491,20 @@ impl Family for DiagnosticSpans {
                     let inside = mine.iter().any(|v| def_extent(r, v.def).map_or(false, |(a, b)| le(a, s) && le(t, b)));
                     if !inside {
                         out.violate(format!("c09/diagnostic/{}/span-outside-offending-element", d.code), ctx(&format!("the definitions violating this rule occupy {:?}", mine.iter().filter_map(|v| def_extent(r, v.def)).map(|(a, b)| format!("{}:{}..{}:{}", a.row, a.col, b.row, b.col)).collect::<Vec<_>>())));
+                    }
+                }
+            }
+            // the element the message names: for the codes listed in NAMES_ITS_PLACE the message quotes the identifier
+            // of the member or definition at fault, and the span has to lie on that element (not on a neighbour)
+            if let Some(extent) = named_element_extent(r, &d.message) {
+                let inside = le(extent.0, s) && le(t, extent.1);
+                if std::env::var_os("C09_ANCHOR_STATS").is_some() {
+                    eprintln!("ANCHOR\t{}\t{}", d.code, inside);
+                }
+                if NAMES_ITS_PLACE.contains(&d.code.as_str()) {
+                    obligations += 1;
+                    if !inside {
+                        out.violate(format!("c09/diagnostic/{}/span-not-on-the-element-the-message-names", d.code), ctx(&format!("the message names an element that occupies {}:{}..{}:{}", extent.0.row, extent.0.col, extent.1.row, extent.1.col)));
                     }
                 }
             }
@@ -522,6 +586,12 @@ impl Family for DiagnosticSpans {
                         out.violate(format!("c09/diagnostic/{}/{what_sig}-format", d.code), ctx(&format!("{what}: unexpected snippet line {src_line:?}:\n{stream}")));
                         break;
                     };
+                    // the bars of the frame line, the numbered line and its highlight line stand in one column
+                    let bar = |l: &str| l.chars().position(|c| c == '|');
+                    if bar(src_line) != bar(hl_line) || sl.get(li + 1).map_or(false, |f| bar(f) != bar(src_line)) {
+                        out.violate(format!("c09/diagnostic/{}/{what_sig}-gutter-misaligned", d.code), ctx(&format!("{what}: row {row}: the '|' of the numbered line, of its highlight line and of the frame line are in different columns:\n{stream}")));
+                        break;
+                    }
                     if num.trim().parse::<usize>().ok() != Some(row) {
                         out.violate(format!("c09/diagnostic/{}/{what_sig}-line-number", d.code), ctx(&format!("{what}: snippet shows line number {:?} for row {row}:\n{stream}", num.trim())));
                         break;
